@@ -369,6 +369,7 @@ def _fmt(ms: list) -> str:
     return '[' + ', '.join('%s(%s)' % (m.name, 'text' if p is str else getattr(p, 'name', p)) for m, p in ms) + ']'
 
 
+@rt.natively
 def run_history(N: int, NC: int, E: int, last: 'list | None', first: 'list | None', n: int, xs: list) -> bool:
     """History of L = 1..N events; events 0..L-2 are free (all enabled events), the last one is restricted to the
     obligation's class `last` (the classes partition the events, so the obligations of one (N, NC, E) together cover
